@@ -89,6 +89,16 @@ impl FunBuilder {
   pub fn capture_count(&self) -> u8 {
     self.capture_count
   }
+
+  /// The number of argument slots a call places above slot 0
+  #[inline]
+  pub fn parameter_slots(&self) -> i32 {
+    match self.arity {
+      Arity::Fixed(count) => count as i32,
+      Arity::Variadic(count) => count as i32,
+      Arity::Default(_, count) => count as i32,
+    }
+  }
 }
 
 impl FunBuilder {
